@@ -299,7 +299,6 @@ pub fn run_enc_check(ctx: &Ctx, check: &EncCheck) -> Stats {
                                     h.caps = caps.clone();
                                     h.align = j;
                                     st.evals += 1;
-                                    st.nontrivial_distinct();
                                     st.class("character-straddling-a-power-of-two-offset");
                                     if let Some((msg, sig)) = (check.verdict)(&h, &mut sc, st, true) {
                                         if let Some(id) = fw::known_open_id(&sig) {
